@@ -11,11 +11,64 @@ def opDownload (j : Json) : R Json := do
   return Json.mkObj [("book", encBook s1.book), ("fs", encFS s1.fs),
     ("reqs", Json.arr (s1.reqs.reverse.map encPath).toArray)]
 
+def encStage : Stage → Json
+  | .releaseRound i => Json.str s!"release:{i}"
+  | .indices => Json.str "indices"
+  | .skelClean => Json.str "skel-clean"
+  | .pool => Json.str "pool"
+  | .publish => Json.str "publish"
+  | .clean => Json.str "clean"
+
+/-- {"retries":n,"rounds":[[valid,hasErrors]...],"metadata_empty":b,"index":[err,miss],"pool":[err,miss],"clean":b} -/
+def opControl (j : Json) : R Json := do
+  let rounds ← (← fArr j "rounds").mapM fun r => do
+    let a ← r.getArr?
+    match a.toList with
+    | [v, e] => pure ({ valid := ← v.getBool?, hasErrors := ← e.getBool? } : Round)
+    | _ => throw "bad round"
+  let idx ← (← fArr j "index").mapM (·.getBool?)
+  let pool ← (← fArr j "pool").mapM (·.getBool?)
+  let plan : RepoPlan := {
+    retries := ← fNat j "retries"
+    rounds := fun i => rounds.getD i { valid := false, hasErrors := false }
+    metadataEmpty := ← fBool j "metadata_empty"
+    indexErrors := idx.getD 0 false, indexMissing := idx.getD 1 false
+    poolErrors := pool.getD 0 false, poolMissing := pool.getD 1 false
+    clean := ← fBool j "clean" }
+  let (stages, ok) := mirrorControl plan
+  return Json.mkObj [("stages", Json.arr (stages.map encStage).toArray), ("result", Json.bool ok)]
+
+def opExit (j : Json) : R Json := do
+  let rs ← (← fArr j "results").mapM (·.getBool?)
+  return Json.num (exitStatus rs)
+
+def encOp : Op → Json
+  | .relink s d => Json.arr #[Json.str "relink", encPath s, encPath d]
+  | .renameDir a b => Json.arr #[Json.str "rename", encPath a, encPath b]
+  | .rmtree a => Json.arr #[Json.str "rmtree", encPath a]
+  | .unlink a => Json.arr #[Json.str "unlink", encPath a]
+
+/-- {"mirror":path,"top":str,"files":[[src,[alias...]]...],"cur_exists":b} -/
+def opMoveOps (j : Json) : R Json := do
+  let mirror ← decPath (← field j "mirror")
+  let top ← fStr j "top"
+  let files ← (← fArr j "files").mapM fun f => do
+    let a ← f.getArr?
+    match a.toList with
+    | [src, als] => pure (← decPath src, ← (← als.getArr?).toList.mapM decPath)
+    | _ => throw "bad file"
+  let sw := mkSwap mirror top
+  let ops := moveOps sw files (← fBool j "cur_exists")
+  return Json.arr (ops.map encOp).toArray
+
 def dispatch (j : Json) : R Json := do
   let op ← fStr j "op"
   match op with
   | "ping" => pure (Json.str "pong")
   | "download" => opDownload j
+  | "control" => opControl j
+  | "exit" => opExit j
+  | "moveops" => opMoveOps j
   | _ => throw s!"unknown op {op}"
 
 partial def loop (h : IO.FS.Stream) (out : IO.FS.Stream) : IO Unit := do
